@@ -134,6 +134,22 @@ PROPS = {
         "technique": "online assertion + paired-execution comparator",
         "jobs": [{"pkg": "motion", "test": "TestVerif_C09", "shards": (16, 16), "timeout": (300, 2400), "require": ["history_pairs", "suppressed_window_frames", "motion_frames_after_period", "pairs_with_reset", "pairs_with_ffc"]}],
     },
+    "C11": {
+        "title": "Finished files decode to exactly the recorded frames, metadata and settings",
+        "level": "exploration",
+        "rule": "Real handleConn + CPTVFileRecorder over net.Pipe with a generated config.toml (device name up to 255 bytes incl. UTF-8, id, min/max/preview secs, trigger frames, constant recorder on/off, "
+                "throttler section with activate=false and hostile bucket values, location incl. microsecond timestamp, [thermal-motion] fully specified / partially specified (camera-model defaults fill the rest) / dynamic) "
+                "and camera lepton3 / lepton3.5 / boson at 16x12 (some 160x120), hostile firmware strings, serial up to 2^32-1; frame content: static scene + toggling hot pixel, random 16-bit, checkerboard 1<->65535; random telemetry words. "
+                "Every finished file is decoded with the stock go-cptv reader and compared with the reference pipeline: background first (all zero with a fixed threshold), frames pixel- and telemetry-exact (ms / float32 resolution) "
+                "and consecutive, header fields == config/camera, motion YAML == settings in force + triggeredthresh, continuous files == tiling, motion files == RefDetector+RefRecorderFSM prediction (fixed-threshold modes). "
+                "Non-trivial = connection that produced at least one finished file.",
+        "assumptions": COMMON_ASSUME + ["CPTV field ranges: serial uint32, preview-secs/fps uint8, strings <= 255 bytes, altitude >= 0 (go-cptv omits negative altitudes)",
+                                        "dynamic-threshold connections are checked structurally (frames, header, consecutiveness), not predicted"],
+        "level_text": "Offline differential checker: decode everything the daemon wrote and compare with a reference pipeline composed from models that the unit-tier checks validated against the real components.",
+        "level_note": "go-cptv and go-config are pinned dependencies and part of the system under observation.",
+        "technique": "offline differential checker (decoded output vs reference pipeline)",
+        "jobs": [{"pkg": "recorder-main", "test": "TestVerif_C11", "race": True, "shards": (16, 16), "timeout": (600, 3000), "require": ["connections", "frames_compared", "motion_files", "continuous_files", "mode_0_connections", "mode_1_connections", "mode_2_connections", "predicted_motion_frames"]}],
+    },
     "C12": {
         "title": "Sinks see writes only inside start..stop; faults never crash the pipeline",
         "level": "fault_enumeration",
@@ -146,6 +162,21 @@ PROPS = {
         "level_note": "Enumeration is complete for sequences up to the stated length on the listed configurations; longer histories and fault combinations are sampled. The real CPTVFileRecorder under real I/O faults is exercised by the pipeline job.",
         "technique": "protocol-automaton monitors on injected sinks with exhaustive single-fault placement",
         "jobs": [{"pkg": "motion", "test": "TestVerif_C12", "shards": (16, 16), "timeout": (300, 2400), "require": ["single_fault_runs", "recoveries_checked", "random_faults_injected"]}],
+    },
+    "C13": {
+        "title": "Bad frames are rejected, never recorded or buffered, end the recording cleanly",
+        "level": "exploration",
+        "rule": "In cmd/thermal-recorder (frameParser's choice and convertRawBosonFrame under test) with a real MotionProcessor and monitor sinks. Part A (exhaustive): for lepton3 / lepton3.5 / boson at 8x6 and edge 0..2, "
+                "a zero at every pixel position, zeros on the whole border only, several interior zeros: Process returns *lepton3.BadFrameErr <=> independent decode finds an interior zero; accepted frames reach the sink pixel- and telemetry-exact. "
+                "Part B: seeded streams (10..90 frames, 3-20 % bad frames incl. consecutive ones and one placed at an offset -2..trigger+min+2 around the first motion burst, test-recording requests): classification per frame, "
+                "no sink write / snapshot carries a rejected frame's id, motion recording closed at the bad frame, valid frames decoded exactly, detection verdicts equal to the twin run with the bad frames deleted. "
+                "Non-trivial = stream containing bad frames / every Part A case.",
+        "assumptions": COMMON_ASSUME + ["the FLIR telemetry layout belongs to the pinned lepton3 package; the harness encoder is self-tested against lepton3.ParseTelemetry at start-up (disagreement = harness fault, exit 2)",
+                                        "the 'asks the camera daemon to restart' D-Bus call is only observable with a bus (not claimed here)"],
+        "level_text": "Independent raw decoders + sink-trace scan + paired-execution comparator, exhaustive over zero positions for small frames and sampled over streams.",
+        "level_note": "Writes to a closed continuous sink after a bad frame were C12's finding F4 (fixed).",
+        "technique": "independent-decoder differential + sink-trace scan + paired-execution comparator",
+        "jobs": [{"pkg": "recorder-main", "test": "TestVerif_C13", "shards": (16, 16), "timeout": (300, 2400), "require": ["bad_frames_rejected", "valid_frames_accepted", "streams", "recordings_ended_by_bad_frame", "motion_frames", "valid_frames_compared"]}],
     },
     "C14": {
         "title": "Frame socket: header round-trips, frames delivered once, 'clear' resets",
